@@ -16,6 +16,7 @@ CONFIG = dict(
     assumptions=["oracle domain: command lines without bare CR/LF, whose quoted strings end on the line, that do not end in SP, with literal sizes below 2^63 (elsewhere the RFC lexer and the library's deliberately liberal lexer may frame differently; such streams are generated, compared with the model and checked for panics and whole response lines only)",
                  "the backend (stub) succeeds in every call, except Append on the servers marked /af, which fails without reading the message"],
     leanchecker=True,
+    source_facts=True,
     level_text="proof: theorems about the mirrored server (one tagged reply per RFC-framed command, no announced payload octet consumed as command text, '+' only for an accepted synchronising literal / AUTHENTICATE / IDLE) for all byte streams of the stated domain; the mirror is tied to the real server on every run and the RFC framing (Spec/Framing.lean, written from RFC 9051 section 4.3 and RFC 7888) judges every transcript of the implementation",
     level_note="Trusted: Lean kernel; harness/driver. Partial: concurrent writers (IDLE goroutine vs command goroutine) are not in the byte model. The list of proved / oracle-only clauses is at the top of lean/GoImap/Props/C04.lean.",
 )
